@@ -302,6 +302,7 @@ def run_scripts(ck, runner, rng, n_scripts, length):
                         ck.violation("ctas/runtime-error-leaves-empty-table",
                                      "CREATE TABLE AS whose query fails at run time leaves the (empty) table in the catalog: a failed statement changed the catalog",
                                      {"kind": "impl-vs-oracle", "stmts": [x for x in flat[:sum(len(s[2]) for s in script[:i + 1])]], "at": sqls[0]})
+                        break            # the engine's catalog now holds a table the specification does not: later differences are this finding again
                 continue
             if e[0] == "err" and mo[0] != "err":
                 if any(u in e[1] for u in UNSUPPORTED):
